@@ -378,10 +378,10 @@ class Builder:
     def read_back_service(self, op, s, stype, site, cprops):
         """what was declared at creation is what the service carries right after creation (before any validate())"""
         if s is None:
-            self.created.append({'op': op, 'declared': [stype, site, sorted(cprops)], 'carried': None})
+            self.created.append({'op': op, 'declared': [stype, site, sorted(set(cprops))], 'carried': None})
             return
         carried = [str(s.type), s.site if s.site else None, sorted(p for p in SVC_PROPS if s.get_property(p))]
-        declared = [stype, site, sorted(cprops)]
+        declared = [stype, site, sorted(set(cprops))]       # a SET: a recipe may name a property twice
         if carried != declared:
             self.created.append({'op': op, 'declared': declared, 'carried': carried})
 
@@ -699,7 +699,10 @@ def gen_service(w, stype, k, placement, kinds, declared, props, via, name=None):
         w.ops.append(['mirror', name, 'port0', refs[0], declared, extra])
         later = [] if at_creation else [p for p in rest if p != 'mirror_vlan']
     else:
-        plain = [p for p in props if p != 'mirror_api']
+        plain = []
+        for p in props:
+            if p != 'mirror_api' and p not in plain:
+                plain.append(p)
         w.ops.append(['svc', name, stype, declared, refs, via] + ([plain] if at_creation else []))
         later = [] if at_creation else plain
     for p in later:
